@@ -31,6 +31,11 @@ def escaper_status(F, b, op):
     return "raw", "no escaping"
 
 
+def param_deps_of(b, op):
+    from factlib import param_deps
+    return param_deps(b, op)
+
+
 def run(F, R):
     R.remainder("that the exported SDL re-parses to an equal schema; semantic equality of default values")
     bodies = [b for b in F.bodies.values() if b.defp.startswith(REG + "::export_sdl::") or
@@ -197,3 +202,16 @@ def run(F, R):
                 ts = [x for x in b.calls() if x.bb in after and x.callee and x.callee.endswith("::to_string")]
                 R.check(bool(ts), "R17.4", "default-value-stringified:" + macro_of(b), "%s:%s" % (b.file, c.line), "to_value().to_string()", "default value not rendered through Display")
     R.floor("R17.4", "default values registered by expansions", n, 5)
+
+    R.rule("R17.7", "escape_string has no bypass: the String it returns is the accumulator filled by the per-character loop on every path — no early return of the "
+                    "input (to_string / to_owned / String::from of the parameter) for inputs deemed harmless by a cheaper test")
+    es = [b for b in bodies if b.kind == "fn" and b.name == "escape_string"]
+    R.floor("R17.7", "escape_string", len(es), 1)
+    for b in es:
+        copies = [c for c in b.calls() if c.callee and re.search(r"ToString::to_string$|ToOwned::to_owned$|string::\{impl#\d+\}::from$|str::\{impl#\d+\}::to_string$|str::\{impl#\d+\}::to_owned$|::into$", c.declared or c.callee)
+                  and c.args and param_deps_of(b, c.args[0]) == {1}]
+        loops = b.loop_blocks()
+        rets = b.exits()
+        R.check(not copies and bool(loops), "R17.7", "escape_string:no-unescaped-return", b.where(), "result built by the character loop only",
+                "escape_string can return a plain copy of its input (%s): characters the per-character arms escape (line terminators, form feed, backspace) reach the SDL raw "
+                "whenever the shortcut's test does not look for them" % sorted({(c.declared or c.callee).split("::")[-1] for c in copies}))
